@@ -474,7 +474,7 @@ pub fn kdf_from_vd(vd: &[(u8, String, Vec<u8>)]) -> Result<Kdf, String> {
     if uuid == KDF_AES_KDBX4 || uuid == KDF_AES_KDBX3 {
         let seed = get("S", 0x42)?;
         if seed.len() != 32 {
-            return Err("kdf-params".into());
+            return Err("size-kdf-seed".into());
         }
         Ok(Kdf::Aes { rounds: rd64(&get("R", 0x05)?), seed })
     } else if uuid == KDF_ARGON2D || uuid == KDF_ARGON2ID {
@@ -484,7 +484,7 @@ pub fn kdf_from_vd(vd: &[(u8, String, Vec<u8>)]) -> Result<Kdf, String> {
         }
         let salt = get("S", 0x42)?;
         if salt.len() != 32 {
-            return Err("kdf-params".into());
+            return Err("size-kdf-seed".into());
         }
         Ok(Kdf::Argon2 { id: uuid == KDF_ARGON2ID, version, memory: rd64(&get("M", 0x05)?), iterations: rd64(&get("I", 0x05)?), parallelism: rd32(&get("P", 0x04)?), salt })
     } else {
